@@ -178,7 +178,9 @@ func (b *BundleAdd) Len() (n uint16) {
 	length := uint16(unsafe.Sizeof(b.BundleID) + unsafe.Sizeof(b.Flags))
 	length += uint16(len(b.pad))
 	length += b.Message.Len()
-	if b.Properties != nil {
+	if len(b.Properties) > 0 {
+		// the message is padded to a multiple of 8 bytes when properties follow it
+		length = (length + 7) / 8 * 8
 		for _, p := range b.Properties {
 			length += p.Len()
 		}
@@ -201,7 +203,8 @@ func (b *BundleAdd) MarshalBinary() (data []byte, err error) {
 	}
 	copy(data[n:], msgBytes)
 	n += len(msgBytes)
-	if b.Properties != nil {
+	if len(b.Properties) > 0 {
+		n = (n + 7) / 8 * 8
 		for _, property := range b.Properties {
 			propertyData, err := property.MarshalBinary()
 			if err != nil {
@@ -217,6 +220,9 @@ func (b *BundleAdd) MarshalBinary() (data []byte, err error) {
 
 func (b *BundleAdd) UnmarshalBinary(data []byte) error {
 	var err error
+	if len(data) < 16 {
+		return errors.New("the []byte is too short to unmarshal a full BundleAdd message")
+	}
 	n := 0
 	b.BundleID = binary.BigEndian.Uint32(data[n:])
 	n += 4
@@ -224,12 +230,21 @@ func (b *BundleAdd) UnmarshalBinary(data []byte) error {
 	n += 2
 	b.Flags = binary.BigEndian.Uint16(data[n:])
 	n += 2
-	b.Message, err = Parse(data[n:])
+	// the embedded message ends where its own header says, properties may follow it
+	msgLen := int(binary.BigEndian.Uint16(data[n+2:]))
+	if msgLen < 8 || n+msgLen > len(data) {
+		return errors.New("the length of the message in the BundleAdd message is outside the []byte")
+	}
+	b.Message, err = Parse(data[n : n+msgLen])
 	if err != nil {
 		return err
 	}
-	n += int(b.Message.Len())
+	if b.Message == nil {
+		return errors.New("the BundleAdd message carries a message type that Parse does not decode")
+	}
+	n += msgLen
 	if n < len(data) {
+		n = (n + 7) / 8 * 8
 		b.Properties = make([]BundlePropertyExperimenter, 0)
 		for n < len(data) {
 			var property BundlePropertyExperimenter
